@@ -110,11 +110,40 @@ HEADER_SIZE == 2
 ExpHeader(x) == IF InLen(x) < HEADER_SIZE + 1 THEN "reject" ELSE IF x.fmt THEN "accept" ELSE "either"
 ExpRecord(x) == IF InLen(x) <= HEADER_SIZE THEN "reject" ELSE IF x.fmt THEN "accept" ELSE "either"
 
+\* ---------------------------------------------------------------- multiaddresses
+\* The driver parses the input with libp2p (trusted) and logs: inp = the peer ids of the input's /p2p components
+\* in order (small integers), relay = the input is  <transport>/p2p/R/p2p-circuit/p2p/T,  canon = the input already
+\* is a dialable address  /ip4/A/(udp/P[/quic-v1] | tcp/P[/ws])[/p2p/X]  (the peer id may be absent only when the
+\* caller asked to ignore it), outp = the peer ids of the crafted address (0 = an id that is not in the input),
+\* ident = the crafted address printed equals the input.
+\* Canonical addresses are what the formatter prints: they are accepted and returned unchanged.
+C17_CraftCanonical(canon, out, ident) == canon => out = "ok" /\ ident
+\* The crafted address carries at most one peer id, one that the input carries; the only peer id of the input is
+\* kept; of a relayed address the transport part belongs to the relay R, so only R makes it dialable; without
+\* the ignore flag an address without peer id is not returned.
+C17_CraftKeepsPeer(inp, relay, ignore, out, outp) == out = "ok" =>
+    /\ Len(outp) <= 1
+    /\ \A i \in 1..Len(outp) : \E j \in 1..Len(inp) : inp[j] = outp[i]
+    /\ (~ignore => Len(outp) = 1)
+    /\ (Len(inp) = 1 => outp = inp)
+    /\ (relay => outp = <<inp[1]>>)
+
+\* ---------------------------------------------------------------- lists, ports against a registry, numbering
+\* ANT_PEERS: a comma separated list; the result holds exactly the items that are addresses on their own
+\* (same: the returned addresses are those of the items, in order -- compared by the driver)
+EnvPeersOK(nItemsOk, nOut, same) == nOut = nItemsOk /\ same
+\* check_port_availability: Ok iff no port of the range is recorded in the registry (used: computed by the driver)
+AvailOK(used, out) == (out = "ok") = ~used
+
 \* ---------------------------------------------------------------- all parsers
+\* a register signing key is the hex form of a 32-byte BLS secret key
+KEY_LEN == 64
+ExpKey(x) == HexFixed(x, KEY_LEN)
+ExtraParsers == {"signing_key", "wallet_file"}
 HexParsers == {"reg_from_hex", "pad_from_hex", "str_to_addr", "dmc_from_hex", "decrypt"}
 OpenParsers == {"atto_from_str", "craft_multiaddr", "cache_load", "registry_load", "registry_from_json"}
 RecordParsers == {"header_from_record", "record_chunk", "record_scratchpad", "record_register", "record_transaction"}
-ParserNames == HexParsers \cup OpenParsers \cup RecordParsers \cup {"port_parse"}
+ParserNames == HexParsers \cup OpenParsers \cup RecordParsers \cup ExtraParsers \cup {"port_parse"}
 
 \* expectation for an input x of parser p (x.codes is used by the port grammar only)
 Expected(p, x) ==
@@ -123,6 +152,7 @@ Expected(p, x) ==
       [] p = "str_to_addr"  -> ExpAddr(x)
       [] p = "dmc_from_hex" -> ExpDmc(x)
       [] p = "decrypt"      -> ExpDecrypt(x)
+      [] p = "signing_key"  -> ExpKey(x)
       [] p = "port_parse"   -> PortSpec(x.codes).k
       [] p = "header_from_record" -> ExpHeader(x)
       [] p \in RecordParsers -> ExpRecord(x)
